@@ -2122,12 +2122,35 @@ struct ProtoSpec {
 /// parents are made from the def names; `protos(parent)` is compared, as a set of dicts, with an oracle written from
 /// the documentation of the two tags and with the model
 fn exec_protos(seed: u64, rows: &[RowSpec], out: &mut CaseOut) {
+    let mut rng = Rng::new(seed);
+    // some of the sixteen core type defs join the graph (for `core_type_defs`)
+    const CORE: [&str; 16] =
+        ["marker", "na", "bool", "number", "coord", "str", "symbol", "ref", "uri", "xstr", "date", "time", "dateTime", "dict", "list", "grid"];
+    let mut rows: Vec<RowSpec> = rows.to_vec();
+    let core_mode = rng.below(4);
+    for (i, n) in CORE.iter().enumerate() {
+        let add = match core_mode {
+            0 => false,
+            1 => true,
+            _ => rng.chance(1, 2),
+        };
+        if add {
+            // a look-alike in another spelling next to (or instead of) the name itself
+            if rng.chance(1, 6) {
+                rows.push(RowSpec::plain(&n.to_ascii_lowercase(), vec![]));
+                if rng.chance(1, 2) {
+                    continue;
+                }
+            }
+            rows.push(RowSpec::plain(n, if i > 0 && rng.chance(1, 3) { vec![Some("val".to_string())] } else { vec![] }));
+        }
+    }
+    let rows: &[RowSpec] = &rows;
     let o = Oracle::new(rows);
     if !o.on_cycle().is_empty() || o.is.is_empty() {
         return;
     }
     out.nontrivial = true;
-    let mut rng = Rng::new(seed);
     let pool = proto_value_pool();
     let defined: Vec<String> = o.is.keys().cloned().collect();
     let is_id = |s: &str| s.chars().next().map_or(false, |c| c.is_ascii_lowercase()) && s.chars().all(|c| c.is_ascii_alphanumeric());
@@ -2325,6 +2348,39 @@ fn exec_protos(seed: u64, rows: &[RowSpec], out: &mut CaseOut) {
         pd_tokens(p, &mut t);
     }
     out.req(format!("C13 protos {} {}", model_graph_tokens(rows), t.join(" ")), format!("ok {}", replies.join(";")));
+    // --- core_type_defs: per field the def named after the kind, or the empty dict ---------------------
+    {
+        let c = ns.core_type_defs();
+        let fields: [&Dict; 16] =
+            [c.marker, c.na, c.bool, c.number, c.coord, c.str, c.symbol, c.reference, c.uri, c.xstr, c.date, c.time, c.datetime, c.dict, c.list, c.grid];
+        let mut reply = Vec::new();
+        let mut found = 0;
+        for (f, n) in fields.iter().zip(CORE.iter()) {
+            let want: Option<&Dict> = ns.get_by_name(n);
+            match want {
+                Some(d) => {
+                    found += 1;
+                    if !std::ptr::eq(*f, d) && *f != d {
+                        out.fail("core_type_def", format!("core_type_defs(): the field for `{n}` holds {f:?}, the namespace's def `{n}` is {d:?}"));
+                    }
+                    if !o.defined(n) {
+                        out.fail("core_type_def", format!("get_by_name({n:?}) finds a def the grid does not have"));
+                    }
+                }
+                None => {
+                    if !f.is_empty() {
+                        out.fail("core_type_def", format!("core_type_defs(): the namespace has no def `{n}`, the field holds {f:?}"));
+                    }
+                    if o.defined(n) {
+                        out.fail("core_type_def", format!("get_by_name({n:?}) does not find the def of the grid"));
+                    }
+                }
+            }
+            reply.push(if f.is_empty() { "-".to_string() } else { vx::h(f.def_name()) });
+        }
+        out.stat(match found { 0 => "core_defs_0", 16 => "core_defs_16", _ => "core_defs_some" });
+        out.req(format!("C13 core {}", model_graph_tokens(rows)), format!("ok {}", reply.join(",")));
+    }
     unsafe { free_ns(ns) };
 }
 
